@@ -180,6 +180,10 @@ pub struct Config {
     /// Whether to stop searching when a non-matching line is found after a
     /// matching line.
     stop_on_nonmatch: bool,
+    /// Verification hook: when set, the roll buffer used by the incremental
+    /// reader is created with exactly this capacity and eager growth.
+    #[cfg(feature = "verif-hooks")]
+    verif_buffer_capacity: Option<usize>,
 }
 
 impl Default for Config {
@@ -198,6 +202,8 @@ impl Default for Config {
             encoding: None,
             bom_sniffing: true,
             stop_on_nonmatch: false,
+            #[cfg(feature = "verif-hooks")]
+            verif_buffer_capacity: None,
         }
     }
 }
@@ -227,6 +233,12 @@ impl Config {
             builder
                 .capacity(capacity)
                 .buffer_alloc(BufferAllocation::Error(additional));
+        }
+        #[cfg(feature = "verif-hooks")]
+        if let Some(capacity) = self.verif_buffer_capacity {
+            if self.heap_limit.is_none() {
+                builder.capacity(capacity);
+            }
         }
         builder.build()
     }
@@ -562,6 +574,19 @@ impl SearcherBuilder {
         stop_on_nonmatch: bool,
     ) -> &mut SearcherBuilder {
         self.config.stop_on_nonmatch = stop_on_nonmatch;
+        self
+    }
+
+    /// Verification hook (feature `verif-hooks` only): create the roll
+    /// buffer of the incremental reader with exactly `capacity` bytes and
+    /// eager growth, instead of the default 64 KiB. Ignored when a heap
+    /// limit is set.
+    #[cfg(feature = "verif-hooks")]
+    pub fn verif_buffer_capacity(
+        &mut self,
+        capacity: Option<usize>,
+    ) -> &mut SearcherBuilder {
+        self.config.verif_buffer_capacity = capacity;
         self
     }
 }
